@@ -237,6 +237,11 @@ def opStep (s : St α) : Op → St α
 
 def opRun (s : St α) (ops : List Op) : St α := ops.foldl opStep s
 
+/-- `Cache::prefetch` / `AsyncCache::prefetch` (`cache.rs`): both only forward to the SOURCE's own
+`prefetch_sync` / `prefetch_async` hook (a no-op by default); the cached items, the source position, the consumers
+and the parked wakers are not touched, and no bundle is generated -/
+def prefetch (s : St α) : St α := s
+
 def syncOpStep (s : St α) : Op → St α
   | .start c want => startReq s c want
   | .poll c => (syncTask s c).1
